@@ -233,7 +233,7 @@ const sigSyncScan = "asc-sync-scan-before-specific-config"
 
 func TestAACConfigRoundTrip(t *testing.T) {
 	t.Parallel()
-	evid.Checks(8000, 200000)
+	evid.Checks(30000, 500000)
 	rapid.Check(t, func(t *rapid.T) {
 		a := aacasc.Gen().Draw(t, "asc")
 		omitCh := rapid.IntRange(0, 3).Draw(t, "sdp_omit_channels") == 0
